@@ -1,6 +1,8 @@
-(* C07: concrete witnesses (the _refuted half) and the finite dispatch-table facts. *)
+(* C07: concrete witnesses (the _refuted half, and the former witnesses of the repaired comment
+   defects, which now parse like their comment-free versions) and the finite dispatch-table facts. *)
 From Coq Require Import ZArith List Bool Lia Arith.
 From RV Require Import Base.Wire Base.Text Lang.Lex Lang.PyLayout Lang.Layout Lang.DispatchSpec Gen.Dispatch.
+From RV Require Import Proofs.LexP Proofs.RoundTripP.
 Import ListNotations.
 Open Scope Z_scope.
 
@@ -35,23 +37,31 @@ Definition w_else_plain : list text :=
    [101;108;115;101;58]  (* 'else:' *);
    [32;32;32;32;97;32;61;32;50]  (* '    a = 2' *)].
 
-(* the guard of the _collect_block theorem without its comment clause *)
-Definition block_guard_nc (lines : list text) (start : nat) : bool :=
-  (start <? length lines)%nat && forallb plain_ws lines && uniform_indent lines
-  && py_logical (nth start lines []).
-(* ... and without its uniform-indentation clause *)
+Definition w_col0_plain : list text :=
+  [[119;104;105;108;101;32;120;32;60;32;51;58]  (* 'while x < 3:' *);
+   [32;32;32;32;97;32;61;32;49]  (* '    a = 1' *);
+   [32;32;32;32;98;32;61;32;50]  (* '    b = 2' *);
+   [99;32;61;32;51]  (* 'c = 3' *)].
+
+(* the guard of the _collect_block theorem without its uniform-indentation clause *)
 Definition block_guard_nu (lines : list text) (start : nat) : bool :=
   (start <? length lines)%nat && forallb plain_ws lines
-  && py_logical (nth start lines [])
-  && forallb (fun l => negb (py_comment_only l) || (indent_of (nth start lines []) <? indent_of l)%nat)
-             (fst (py_block lines start)).
+  && py_logical (nth start lines []).
 
-(* a comment at column 0 inside a block: the statement after it leaves the block *)
-Lemma comment_col0_refuted :
-  exists lines start,
-    block_guard_nc lines start = true /\
-    filter py_logical (fst (collect_block lines start)) <> py_block_logical lines start.
-Proof. exists w_col0, 0%nat. split; [vm_compute; reflexivity|vm_compute; discriminate]. Qed.
+(* REPAIRED (was comment_col0_refuted): a comment-only line at any column - column 0 included -
+   inside a block leaves the logical lines of the block what Python says they are *)
+Lemma comment_any_column : forall lines start,
+  block_guard lines start = true ->
+  filter py_logical (fst (collect_block lines start)) = py_block_logical lines start.
+Proof. exact collect_block_logical. Qed.
+
+(* the former witness: inside the guard, the block keeps `b = 2`, and the script parses like the
+   script without the comment line *)
+Lemma comment_col0_witness :
+  block_guard w_col0 0 = true
+  /\ filter py_logical (fst (collect_block w_col0 0)) = [[32;32;32;32;97;32;61;32;49]; [32;32;32;32;98;32;61;32;50]]
+  /\ map erase_item (parse_top w_col0) = map erase_item (parse_top w_col0_plain).
+Proof. repeat split; vm_compute; reflexivity. Qed.
 
 (* a tab is 4 columns for Reduino and up to 8 for Python: in a script that mixes the two, a
    statement Python puts inside the inner block is put outside by _collect_block *)
@@ -61,35 +71,29 @@ Lemma mixed_tabs_refuted :
     filter py_logical (fst (collect_block lines start)) <> py_block_logical lines start.
 Proof. exists w_tab, 1%nat. split; [vm_compute; reflexivity|vm_compute; discriminate]. Qed.
 
-(* a trailing comment on the column-0 `while True:` header: the main loop is not recognised *)
-Lemma header_trailing_comment_refuted :
-  exists h tr body,
-    trail_ok true tr = true /\ stmt_ok h = true /\
-    map erase_item (parse_top ((h ++ tr) :: body)) <> map erase_item (parse_top (h :: body)).
-Proof.
-  exists [119;104;105;108;101;32;84;114;117;101;58], [32;32;35;32;109;97;105;110;32;108;111;111;112],
-         [[32;32;32;32;108;101;100;46;116;111;103;103;108;101;40;41]].
-  split; [vm_compute; reflexivity|]. split; [vm_compute; reflexivity|]. vm_compute. discriminate.
-Qed.
+(* REPAIRED (was header_trailing_comment_refuted): a trailing comment on the first line of a
+   script - whatever that line is: the column-0 `while True:`, a while / for / def / if / try
+   header, an import, a simple statement - changes nothing of what parse() builds *)
+Lemma header_trailing_comment_invisible : forall h tr body,
+  trail_ok true tr = true -> stmt_ok h = true ->
+  map erase_item (parse_top ((h ++ tr) :: body)) = map erase_item (parse_top (h :: body)).
+Proof. intros h tr body Ht Hs. exact (top_trailing_comment h tr Hs Ht body). Qed.
 
-(* what the two parses are, spelled out: with the comment the loop header becomes an empty
-   `while` in setup() and the body a setup statement; without it the body is the main loop *)
+(* the former witness, spelled out: with and without the comment the body is the main loop *)
 Lemma header_trailing_comment_shape :
-  map erase_item (parse_top w_hdr_comment)
-    = [SSetup [SBlock KWhile [119;104;105;108;101;32;84;114;117;101;58] []];
-       SSetup [SLeaf [108;101;100;46;116;111;103;103;108;101;40;41]]]
+  map erase_item (parse_top w_hdr_comment) = [SLoop [SLeaf [108;101;100;46;116;111;103;103;108;101;40;41]]]
   /\ map erase_item (parse_top w_hdr_plain) = [SLoop [SLeaf [108;101;100;46;116;111;103;103;108;101;40;41]]].
 Proof. split; vm_compute; reflexivity. Qed.
 
-(* a trailing comment on `else:` (any nesting depth - the probe looks at raw.strip()): the else
-   header is handed to the statement dispatch (where it is dropped) and its body joins the
-   enclosing block *)
-Lemma else_trailing_comment_refuted :
-  map erase (parse_lines w_else_comment) <> map erase (parse_lines w_else_plain)
+(* REPAIRED (was else_trailing_comment_refuted; the general statement is the round trip, whose
+   guard now allows a trailing comment on elif / else / except): the former witness parses like
+   its comment-free version, the else branch is a branch *)
+Lemma else_trailing_comment_witness :
+  map erase (parse_lines w_else_comment) = map erase (parse_lines w_else_plain)
   /\ map erase (parse_lines w_else_comment)
      = [SBlock KIf [105;102;32;120;32;62;32;48;58] [SLeaf [97;32;61;32;49]];
-        SLeaf [101;108;115;101;58]; SLeaf [97;32;61;32;50]].
-Proof. split; [vm_compute; discriminate|vm_compute; reflexivity]. Qed.
+        SBlock KElse [101;108;115;101;58] [SLeaf [97;32;61;32;50]]].
+Proof. split; vm_compute; reflexivity. Qed.
 
 (* '#' inside a triple-quoted literal that also contains a quote character *)
 Lemma strip_comment_triple_quote_refuted :
